@@ -174,7 +174,7 @@ func fillComponent(r *hx.Run) {
 	// sets again (a third of them in the quick tier) on requests of every shape, malformed ones included
 	reps := 1
 	if r.Tier == "thorough" {
-		reps = 6
+		reps = 10
 	}
 	for flags := 0; flags < 512; flags++ {
 		for vpn := 0; vpn < 2; vpn++ {
@@ -289,7 +289,7 @@ func fillComponent(r *hx.Run) {
 	// 5. random
 	n := 600
 	if r.Tier == "thorough" {
-		n = 12000
+		n = 40000
 	}
 	for i := 0; i < n; i++ {
 		vpn := rng.Intn(2)
